@@ -10,9 +10,10 @@ import pipeline
 PROPS = ["PropC03a", "PropC03b", "PropC03c"]
 
 
-def cfg(depth, prefixes, emit, props=(), walk=0, uris="app"):
+def cfg(depth, prefixes, emit, props=(), walk=0, uris="app", preset="none"):
     return dict(spec="Spec", view="View",
                 constants={"MaxDepth": depth, "UsePrefixes": tla_set(prefixes), "UriSet": json.dumps(uris),
+                           "Preset": json.dumps(preset),
                            "Emit": json.dumps(emit), "WalkLen": walk},
                 properties=list(props), invariants=[])
 
@@ -47,6 +48,18 @@ def run(tier, seed):
     if B3["errors"] or not B3["complete"]:
         raise MachineryError("behaviour generation (B3) failed: %s" % B3["errors"][:3])
     behaviours += [(h, len(h)) for h in B3["tr"]]
+    # two namespaces that differ only by a trailing '#'
+    B5 = tlcrun.run_mc("C03/B5", "MC_C03", cfg(2 if quick else 3, ["ex", "dn", ""], "all", uris="hash"),
+                       workers=1, timeout=3000, heap="8g")
+    if B5["errors"] or not B5["complete"]:
+        raise MachineryError("behaviour generation (B5) failed: %s" % B5["errors"][:3])
+    behaviours += [(h, len(h)) for h in B5["tr"]]
+    # document and bundle have both been told to use one default namespace; then every history
+    B4 = tlcrun.run_mc("C03/B4", "MC_C03", cfg(2 if quick else 3, ["ex", ""], "all", preset="dflt"),
+                       workers=1, timeout=3000, heap="8g")
+    if B4["errors"] or not B4["complete"]:
+        raise MachineryError("behaviour generation (B4) failed: %s" % B4["errors"][:3])
+    behaviours += [(h, len(h)) for h in B4["tr"]]
     # seeded random walks of the same model, longer and not shortest: checked at every step
     dS = 10 if quick else 14
     nS = 300 if quick else 3000
